@@ -10,7 +10,6 @@ Open Scope N_scope.
 (* interned names used below: g0=10 g1=11 n0=20 n1=21 c0=30 r0=40 p0=50 v0=60 *)
 Definition w_reimport : list op :=
   [OAddNode 10 20 30 None; OImport 10 (mkI [(1, [(k_nodeid, PV 21); (k_class, PV 30)])] []); OListIds 10].
-Definition w_clone : list op := [OClone 10 11].
 Definition w_merge : list op :=
   [OAddNode 10 20 30 (Some [(50, PV 60)]); OAddNode 11 20 30 None; OMerge 10 20 11 (Some [(50, s_overwrite)])].
 
@@ -24,12 +23,6 @@ Lemma agree_reimport_live_refuted :
   exists ops, (forall o, In o ops -> in_spec_scope o = true) /\
               results_eqb (sresults init_store ops) (dresults init_dstore ops) = false.
 Proof. exists w_reimport. split; [apply all_in_scope|]; vm_compute; reflexivity. Qed.
-
-(* clone of a graph without nodes: AttributeError vs normal return *)
-Lemma agree_clone_absent_source_refuted :
-  exists ops, (forall o, In o ops -> in_spec_scope o = true) /\
-              results_eqb (sresults init_store ops) (dresults init_dstore ops) = false.
-Proof. exists w_clone. split; [apply all_in_scope|]; vm_compute; reflexivity. Qed.
 
 (* merge_nodes raising KeyError (policy needs a property the other node lacks) changes nothing *)
 Lemma merge_fails_nonvacuous :
